@@ -13,10 +13,11 @@ import SstModel.Lemmas.SpecConform
 
   Hypotheses (all from `build_any_sink_wf`): lawful configuration `WOptsOK`, reported size below 4 GiB,
   and (when compressing) the a-priori bound `sizeBound` on uncompressed block sizes.
-  For the bloom clause additionally `n ≤ 2^29`: the crate (hence the model) computes the number of
-  filter bits in `u32` (`(len-1)*8` wraps for filters longer than 512 MiB) whereas LevelDB and the
-  Spec compute it in `size_t`; for larger files the clause can genuinely fail (see
-  `specBloomMayMatch_eq`).
+  No further size proviso for the bloom clause: since fix D19 the crate (hence the model) computes the
+  number of filter bits `(len-1)*8` in 64 bits, like LevelDB's `size_t`, so the model's and the Spec's
+  bloom tests agree on every filter below 2^61 bytes (`specBloomMayMatch_eq`), in particular on every
+  filter of a file below 4 GiB.  (Before the fix the bit count was a `u32`, wrapped for filters longer
+  than 512 MiB, and this theorem needed `n ≤ 2^29` when `isBloom`.)
 -/
 namespace Sst
 
@@ -25,15 +26,26 @@ namespace Sst
 theorem C05_conforms (opt : WOpts) (hok : WOptsOK opt) (sched : List SinkResp) (es : List (Bytes × Bytes))
     (t0 : TableBuilder) (n : Nat) (hb : TableBuilder.build opt { sched := sched } es = (t0, .ok n))
     (hn : n < 2 ^ 32) (hsz : opt.compression = 1 → sizeBound opt es < 2 ^ 32)
-    (isBloom : Bool) (hbloom : isBloom = true → ∃ b, opt.filter = Bloom.policy b)
-    (hfsmall : isBloom = true → n ≤ 2 ^ 29) :
+    (isBloom : Bool) (hbloom : isBloom = true → ∃ b, opt.filter = Bloom.policy b) :
     Judge.c05 opt.cmp t0.sink.received es opt.filter.name isBloom = "ok" := by
   obtain ⟨hlen, t, himg, hwf, hent, ⟨fh, hmeta⟩, ⟨fb, hview, hsound⟩, hord, _, _, hx⟩ :=
     build_any_sink_wf opt hok sched es t0 n hb hn hsz
   have := SC.c05_of_wf opt.cmp t hwf hx (by rw [himg, ← hlen]; omega) opt.filter fh hmeta fb hview hsound
-    hord isBloom (fun hB => ⟨hbloom hB, by rw [himg, ← hlen]; exact hfsmall hB⟩)
+    hord isBloom (fun hB => ⟨hbloom hB, by rw [himg, ← hlen]; exact hn⟩)
   rw [himg, hent] at this
   exact this
+
+/-- C05 for the crate's DEFAULT configuration (bytewise comparator, no compression, bloom filter with any
+    bits per key -- 10 by default), bloom clause of the judge switched on: no hypothesis on the
+    configuration is left -/
+theorem C05_conforms_bloom (blockSize ri : Nat) (hri : 1 ≤ ri) (b : Nat) (compress : Bytes → Bytes)
+    (sched : List SinkResp) (es : List (Bytes × Bytes)) (t0 : TableBuilder) (n : Nat)
+    (hb : TableBuilder.build { cmp := defaultCmp, blockSize, restartInterval := ri, compression := 0,
+                               filter := Bloom.policy b, compress } { sched := sched } es = (t0, .ok n))
+    (hn : n < 2 ^ 32) :
+    Judge.c05 defaultCmp t0.sink.received es (Bloom.policy b).name true = "ok" :=
+  C05_conforms _ (wOptsOK_bloom blockSize ri hri b compress) sched es t0 n hb hn (fun h => by cases h)
+    true (fun _ => ⟨b, rfl⟩)
 
 /-- in particular the independent decoder decodes exactly the entries added -/
 theorem C05_decodes (opt : WOpts) (hok : WOptsOK opt) (sched : List SinkResp) (es : List (Bytes × Bytes))
@@ -50,4 +62,5 @@ theorem C05_decodes (opt : WOpts) (hok : WOptsOK opt) (sched : List SinkResp) (e
 end Sst
 
 #print axioms Sst.C05_conforms
+#print axioms Sst.C05_conforms_bloom
 #print axioms Sst.C05_decodes
